@@ -130,6 +130,8 @@ func zvC10Histories(thorough, addPath bool) [][]zvC10Op {
 				for _, x := range h {
 					if x.Pfx == o.Pfx && x.Path == o.Path {
 						present = x.Kind == "add"
+					} else if x.Pfx == o.Pfx && x.Kind == "add" && !addPath {
+						present = false // replaced implicitly by the later announcement: no longer held
 					}
 				}
 				if !present {
@@ -147,18 +149,8 @@ func zvC10Histories(thorough, addPath bool) [][]zvC10Op {
 				if present {
 					continue
 				}
-				if !addPath {
-					// a best-path-only client holds at most one path per prefix: the Loc-RIB withdraws the old best before it announces the new one
-					held := map[int]bool{}
-					for _, x := range h {
-						if x.Pfx == o.Pfx {
-							held[x.Path] = x.Kind == "add"
-						}
-					}
-					if held[1] || held[2] {
-						continue
-					}
-				}
+				// (a session without add-path holds one path per prefix: an announcement while another path is held replaces it
+				// implicitly - the Loc-RIB withdraws first, but AddPath() supports the replacement and other callers may use it)
 			}
 			rec(append(h, o), n-1)
 		}
